@@ -430,6 +430,10 @@ def qp_spec_ok(case, out):
     which, stream, sizes = qp_parts(case)
     ref, stop = r_instrs(stream, which)
     words = out.split()
+    if words == ['init-err']:
+        # the tables refuse only configurations beyond h3's own limits
+        cw = case.split()
+        return int(cw[1]) > CAP_MAX or (which == 'd' and int(cw[2]) >= BLOCKED_LIMIT)
     if not words or words[0] == 'panic' or 'panic' in words:
         return False
     ws = [x for x in words[1:] if not x.startswith('S:')]
@@ -561,6 +565,224 @@ def gen_qpd(rng, malformed=None):
     return 'qp.d %d %d %s %s %s' % (cap, blocked, ','.join(eops) or '-', stream.hex() or '-', qp_cuts(rng, len(stream)))
 
 
+# ---------------------------------------------------------------- families that drive the model through its rarely taken branches
+CAP_MAX = (1 << 30) - 1          # dynamic.rs SETTINGS_MAX_TABLE_CAPACITY_MAX (set_max_size refuses more)
+BLOCKED_LIMIT = 65535            # dynamic.rs SETTINGS_MAX_BLOCKED_STREAMS_MAX (set_max_blocked refuses this and more)
+
+
+def maxv(nbits):
+    """largest integer the crate's prefix_int::decode accepts behind an n-bit prefix (nine continuation octets)"""
+    return (1 << nbits) - 1 + (1 << 63) - 1
+
+
+def gen_limits():
+    """deterministic: the configuration limits (init errors on both tables, set_dynamic_table_size above the maximum),
+    decode_header on a section that was never emitted, the assertion of HeaderPrefix::new, and the usize additions of
+    HeaderPrefix::get with an insert count at the top of the usize range (overflow checks are on in the harness build)"""
+    out = []
+    sec = 'E0:%s,I9,B0,K9' % fstr((b'a', b'b'))
+    for cap, blocked in [(4096, BLOCKED_LIMIT - 1), (4096, BLOCKED_LIMIT), (4096, BLOCKED_LIMIT + 1), (4096, 1 << 32),
+                         (CAP_MAX, 10), (CAP_MAX + 1, 10), (1 << 32, 10), (CAP_MAX + 1, BLOCKED_LIMIT), (0, BLOCKED_LIMIT)]:
+        out.append('qx %d %d %s' % (cap, blocked, sec))
+        out.append('qp.d %d %d %s %s 1' % (cap, blocked, 'E0:%s' % fstr((b'x-a', b'1')), (w_dinstr(('N', 1)) + w_dinstr(('A', 0))).hex()))
+        out.append('qp.e %d %s 2' % (cap, w_einstr(('IL', b'a', b'b')).hex()))
+    for z in [CAP_MAX - 1, CAP_MAX, CAP_MAX + 1, 1 << 32, (1 << 62) - 1]:
+        out.append('qz 4096 10 E0:%s,Z%d,I9,B0,K9,E4:%s,I9,B1,K9' % (fstr((b'a', b'b')), z, fstr((b'a', b'c'))))
+        out.append('qz 0 10 Z%d,E0:%s,I9,B0,K9' % (z, fstr((b'a', b'b'))))
+    for j in [1, 2, 7, 1000]:
+        out.append('qs 4096 10 B%d,E0:%s,B%d,I9,b%d,B0,K9,b%d' % (j, fstr((b'a', b'b')), j, j, j))
+    for m in [32, 100, 128, 4096]:
+        for t in [0, 1, 3, 9]:
+            for r in [t + 1, t + 2, t + 100]:
+                for b in [0, t, r]:
+                    out.append('hp.new %d %d %d %d' % (r, b, t, m))
+    top = (1 << 64) - 1
+    for m in [32, 64, 128, 4096]:
+        me = m // 32
+        for t in [top, top - 1, top - me, top - 2 * me, top - 2 * me + 1, 1 << 63, (1 << 63) - 1]:
+            for eic in sorted({0, 1, 2, me, me + 1, 2 * me, 2 * me + 1}):
+                for sign, delta in [(0, 0), (0, 1), (0, 1 << 63), (1, 0), (1, (1 << 63) + 126)]:
+                    out.append('hp.get %d %d %d %d %d' % (eic, sign, delta, t, m))
+    # sign bit with a Delta Base around 2^63: the InvalidBase payload is computed in isize (`as isize` makes it negative)
+    for m in [128, 4096]:
+        for t in [1, 3, 10, 200]:
+            for req in sorted({1, t}):
+                eic = req % (2 * (m // 32)) + 1
+                for delta in [(1 << 63) - 2, (1 << 63) - 1, 1 << 63, (1 << 63) + 1, (1 << 63) + req - 1, (1 << 63) + req,
+                              (1 << 63) + req + 1, (1 << 63) + req + 2, maxv(7) - 1, maxv(7)]:
+                    if delta <= maxv(7):
+                        out.append('hp.get %d 1 %d %d %d' % (eic, delta, t, m))
+    # encoded insert count 1 (Required Insert Count = a positive multiple of 2*max_entries) with fewer than max_entries insertions
+    out += ['hp.get 1 0 0 0 128', 'hp.get 1 0 0 3 128', 'hp.get 1 1 0 0 64', 'hp.get 1 0 5 1 4096']
+    return out
+
+
+def gen_burst256(rng, k=None):
+    """more insertions in ONE on_encoder_recv call than the u8 of InsertCountIncrement can carry: 255 is written (and refused
+    by the encoder's parser, which stops at 64), 256 and more are answered with BufSize after the table has been updated"""
+    k = k or rng.choice([255, 256, 257, rng.randint(258, 300)])
+    if rng.random() < 0.5:
+        # an honest encoder with room for k unacknowledged entries, one stream per section
+        ops, n, j = [], 0, 0
+        while n < k:
+            nf = min(rng.choice([5, 6, 6, 7]), k - n)
+            ops.append('E%d:%s' % (4 * j, '.'.join(fstr((bytes([97 + (n + x) // 26 % 26, 97 + (n + x) % 26]), b'')) for x in range(nf))))
+            n += nf
+            j += 1
+        ops += [rng.choice(['I%d' % k, 'I400', 'i100000']), 'B0', 'K9', 'I9', 'B%d' % (j - 1), 'B1', 'K9']
+        return 'qx %d %d %s' % (rng.choice([16384, 32768, 65536]), rng.choice([100, 1000]), ','.join(ops))
+    ins = []
+    for i in range(k):
+        r = rng.random()
+        if r < 0.7 or i == 0:
+            ins.append(('IL', bytes([97 + i % 26]), b''))
+        elif r < 0.8:
+            ins.append(('IS', rng.choice([0, 1, 17, 98]), b'1'))
+        elif r < 0.9:
+            ins.append(('U', 0))
+        else:
+            ins.append(('ID', 0, b'2'))
+    stream = b''.join(w_einstr(i, rng) for i in ins)
+    cuts = rng.choice(['-', '-', '%d' % rng.randint(1, 40), '%d' % (len(stream) - rng.randint(1, 3)), '%d.%d' % (rng.randint(1, 9), len(stream))])
+    return 'qp.e %d %s %s' % (rng.choice([4096, 4096, 1024, 100, 65536]), stream.hex(), cuts)
+
+
+def gen_huff_padding(rng):
+    """Huffman string literals whose padding is longer than seven bits: h3 accepts any run of one bits up to the end of the
+    string (up to 29 bits), answers Unhandled once 30 one bits (EOS) are followed by another octet, MissingBits when a
+    padding octet has a zero bit"""
+    c15 = _c15()
+    sym = bytes(rng.choice(b'a1/ex-:Z~') for _ in range(rng.choice([0, 0, 1, 2, 3])))
+    payload = bytearray(c15.huff_encode(sym) + b'\xff' * rng.choice([1, 1, 2, 2, 3, 3, 4, 5, 6]))
+    if rng.random() < 0.35:
+        payload[-rng.randint(1, min(len(payload), 4))] &= 0xff ^ (1 << rng.randrange(8))
+    payload = bytes(payload)
+    if len(payload) > 30:
+        payload = payload[:30]
+    kind = rng.choice(['name', 'value', 'value-static'])
+    if kind == 'name':
+        one = w_int(5, 3, len(payload)) + payload + w_str(7, 0, b'v', True)
+    elif kind == 'value':
+        one = w_str(5, 1, b'n', True) + w_int(7, 1, len(payload)) + payload
+    else:
+        one = w_int(6, 3, rng.choice([0, 17, 63, 98])) + w_int(7, 1, len(payload)) + payload
+    pre = w_einstr(('IL', b'x-a', b'1')) if rng.random() < 0.5 else b''
+    post = w_einstr(('U', 0)) if rng.random() < 0.5 else b''
+    stream = pre + one + post
+    return 'qp.e %d %s %s' % (rng.choice([4096, 256, 64]), stream.hex(), qp_cuts(rng, len(stream)))
+
+
+def hostile_rep(rng, total):
+    """one hand-made field line representation: indices in range, at the borders, far beyond, and the largest the wire carries"""
+    k = rng.choice(['S', 'S', 'D', 'D', 'D', 'P', 'P', 'LS', 'LD', 'LP', 'LL'])
+    v = rng.choice(VALUES[:6])
+    if k == 'S':
+        return 'S%d' % rng.choice([0, 1, 17, 62, 63, 64, 97, 98, 98, 99, 99, 100, 1000, 1 << 40, maxv(6)])
+    if k == 'D':
+        return 'D%d' % rng.choice([0, 0, 1, 1, 2, 3, max(0, total - 1), total, total + 1, 62, 63, 64, 1 << 40, maxv(6)])
+    if k == 'P':
+        return 'P%d' % rng.choice([0, 0, 1, 1, 2, 3, total, 14, 15, 16, 1 << 40, maxv(4) - 200, maxv(4)])
+    if k == 'LS':
+        return 'LS%d=%s' % (rng.choice([0, 1, 14, 15, 16, 97, 98, 98, 99, 99, 100, 5000, maxv(4)]), v.hex())
+    if k == 'LD':
+        return 'LD%d=%s' % (rng.choice([0, 0, 1, 2, 3, total, 14, 15, 16, 1 << 40, maxv(4)]), v.hex())
+    if k == 'LP':
+        return 'LP%d=%s' % (rng.choice([0, 0, 1, 2, total, 6, 7, 8, 1 << 40, maxv(3) - 200, maxv(3)]), v.hex())
+    return 'LL%s=%s' % (rng.choice(NAMES[:10]).hex(), v.hex())
+
+
+def hostile_instr(rng, total, cap):
+    k = rng.choice(['U', 'U', 'ID', 'ID', 'IS', 'IS', 'IL', 'Z'])
+    v = rng.choice(VALUES[:8])
+    if k == 'U':
+        return 'JU%d' % rng.choice([0, 0, 1, max(0, total - 1), total, total + 1, 30, 31, 32, 1 << 40, maxv(5)])
+    if k == 'ID':
+        return 'JID%d=%s' % (rng.choice([0, 0, 1, max(0, total - 1), total, total + 1, 62, 63, 64, maxv(6)]), v.hex())
+    if k == 'IS':
+        return 'JIS%d=%s' % (rng.choice([0, 17, 63, 98, 98, 99, 99, 100, 4000, maxv(6)]), v.hex())
+    if k == 'IL':
+        # also entries larger than the whole table
+        n = rng.choice(NAMES[:10]) if rng.random() < 0.6 else b'n' * rng.choice([1, 31, 32, 33, 70, 200])
+        return 'JIL%s=%s' % (n.hex(), (v if rng.random() < 0.6 else b'v' * rng.choice([0, 1, 31, 32, 64, 200])).hex())
+    return 'JZ%d' % rng.choice([0, 0, 1, 31, 32, 33, 64, cap, cap, cap + 1, max(0, cap - 1), 4096, 8192, CAP_MAX, CAP_MAX + 1, maxv(5)])
+
+
+def gen_hostile(rng):
+    """qx: a short honest history, then hand-made field sections (H) against the decoder table as it is - Encoded Insert
+    Counts and bases that are right, off by one, wrapped, beyond 2*max_entries; static, relative and post-base indices in range,
+    just outside, evicted, and so large that Base + index leaves the usize range - and hand-made encoder-stream instructions (J)
+    mixed into the honest encoder stream: first ones the table accepts (the decoder table then differs from the encoder's),
+    at the end ones it refuses (the comparison of a history ends with the first refused delivery)"""
+    cap = rng.choice([0, 31, 32, 64, 70, 100, 128, 128, 256, 256, 1024, 4096, 4096])
+    me = cap // 32
+    ops, total, j = [], 0, 0
+    n = [rng.randrange(600)]
+
+    def fresh():
+        n[0] += 1
+        return (bytes([97 + (n[0] // 26) % 26, 97 + n[0] % 26]), rng.choice([b'', b'1', b'22']))
+    for _ in range(rng.choice([0, 1, 1, 2, 3, 5, 8])):
+        nf = rng.choice([1, 1, 2, 3])
+        ops.append('E%d:%s' % (4 * j, '.'.join(fstr(fresh()) for _ in range(nf))))
+        total += nf                      # an upper bound (nothing is inserted into a full or tiny table)
+        r = rng.random()
+        if r < 0.6:
+            ops += ['I50', 'B%d' % j, 'K9']
+        elif r < 0.8:
+            ops += [rng.choice(['I1', 'i3', 'i7', 'I2'])]
+        j += 1
+    if rng.random() < 0.7:
+        ops.append('I50')
+    if rng.random() < 0.3 and cap >= 64:
+        # instructions the decoder table accepts although the encoder never sent them
+        for _ in range(rng.choice([1, 2, 3])):
+            k = rng.random()
+            if k < 0.3:
+                ops.append('JIL%s=%s' % (rng.choice([b'zz', b'accept', b'y' * 20]).hex(), rng.choice(VALUES[:6]).hex()))
+            elif k < 0.5:
+                ops.append('JIS%d=%s' % (rng.choice([0, 17, 98]), rng.choice(VALUES[:6]).hex()))
+            elif k < 0.7:
+                ops.append('JZ%d' % rng.choice([cap, cap, 64, 100, max(32, cap // 2), 34]))
+            else:
+                ops += ['JIL7a=', rng.choice(['JU0', 'JID0=31', 'JU0', 'JU1'])]
+            total += 2
+        ops.append(rng.choice(['I50', 'I50', 'i400']))
+    for _ in range(rng.choice([1, 2, 3, 4, 6])):
+        # the prefix
+        r = rng.random()
+        req = rng.randint(1, max(1, total)) if r < 0.5 else rng.choice([0, total + 1, total + me, rng.randint(0, total + 3)])
+        if r < 0.75 and me > 0:
+            eic = 0 if req == 0 else req % (2 * me) + 1
+        else:
+            eic = rng.choice([0, 1, 2, 2 * me, 2 * me + 1, 2 * me + 2, rng.randint(0, 2 * me + 3), 255, 256, 1 << 40, maxv(8)])
+        s = rng.random()
+        if s < 0.6:
+            sign, delta = 0, rng.choice([0, 0, 0, 1, 2, max(0, total - req)])
+        elif s < 0.9:
+            sign, delta = 1, rng.choice([0, 0, 1, 2, max(0, req - 1), req, req + 1, 126, 127, 128])
+        else:
+            sign, delta = rng.choice([(0, maxv(7)), (0, maxv(7) - 1), (0, 1 << 63), (1, maxv(7)), (0, 1 << 40), (1, 1 << 40),
+                                      (1, (1 << 63) - 1), (1, 1 << 63), (1, (1 << 63) + req), (1, (1 << 63) + req + 1)])
+        delta = min(delta, maxv(7))
+        reps = [hostile_rep(rng, total) for _ in range(rng.choice([0, 1, 1, 2, 2, 3, 5]))]
+        ops.append('H%d.%d.%d:%s' % (eic, sign, delta, ';'.join(reps)))
+        if rng.random() < 0.2 and j > 0:
+            ops.append('b%d' % rng.randrange(j))
+    if rng.random() < 0.5:
+        # instructions the table refuses (or not), delivered whole or in pieces
+        for _ in range(rng.choice([1, 1, 2, 4])):
+            ops.append(hostile_instr(rng, total, cap))
+            if rng.random() < 0.6:
+                ops.append(rng.choice(['I1', 'I50', 'i2', 'i5', 'i400']))
+        ops.append('I50')
+        if j > 0:
+            ops.append('b%d' % rng.randrange(j))
+    elif rng.random() < 0.5:
+        # the honest pair goes on afterwards (the decoder table is untouched by H)
+        ops += ['E%d:%s' % (4 * j, fstr(fresh())), 'I50', 'B%d' % j, 'K9']
+    return 'qx %d %d %s' % (cap, rng.choice([0, 1, 100]), ','.join(ops))
+
+
 def parse_case(case):
     w = case.split()
     ops = [o for o in w[3].split(',') if o]
@@ -604,7 +826,10 @@ class P(Property):
                      'qpack/verif/tables.rs (which copy the first-octet dispatch and the loop), the real loops through on_encoder_recv / '
                      'on_decoder_recv on one contiguous buffer (both callers parse Cursor::new(read.chunk()), i.e. the first chunk only)',
                      'lib/props/c20.py reference splitter of RFC 9204 4.3 / 4.4 instruction streams (RFC 7541 5.1 integers, spec-data Huffman table) '
-                     'used as the oracle of the qp families']
+                     'used as the oracle of the qp families',
+                     'hand-made sections / instructions (ops H, J of the qx family) are put on the wire by harness code (hostile_block / hostile_instr '
+                     'in harness/src/bin/c20.rs, over the crate\'s prefix_int::encode / prefix_string::encode); the bytes are compared with wire_block / '
+                     'wire_einstr of Model/QWire.v in every case']
     rule = ('qs: seeded histories of 1..40 field sections over alphabets of 1..4 names x 1..4 values drawn from 26 names / 18 values '
             '(static-table names incl. indices >= 63, full static matches, case / prefix / suffix / high-byte near-misses of static rows, '
             'names of 64 and values of 200 bytes), the big family (up to ~120 table entries, 125..270 insertions, bursts of 13..64 '
@@ -625,6 +850,16 @@ class P(Property):
             'returned by the crate decoders, the result / bytes consumed / bytes written / table state of the real on_encoder_recv / '
             'on_decoder_recv are compared with parse_all + the table model, and with the python reference splitter (every instruction is '
             'delivered by the call that receives its last octet, nothing is consumed beyond it).  '
+            'qx (impl = model only, outside the quantifier): configuration limits (blocked limit 65534 / 65535, capacity 2^30-1 / 2^30 on both '
+            'tables, set_dynamic_table_size above the maximum), decode_header on a section that was never emitted, 255 / 256 / 257..300 '
+            'insertions in one on_encoder_recv call (histories and raw streams), Huffman literals with 8..48 bits of padding and with EOS, '
+            'HeaderPrefix::new with required > total, HeaderPrefix::get with insert counts at the top of the usize range and Delta Bases '
+            'around 2^63; hand-made field sections (op H: Encoded Insert Count right / off by one / wrapped / beyond 2*max_entries, both signs, '
+            'Delta Base up to the largest integer the wire carries, 0..5 representations with static indices around 98/99, relative and '
+            'post-base indices in range / at the border / evicted / up to 2^63) decoded against the table of a decoder after a short honest '
+            'history, and hand-made encoder-stream instructions (op J: duplicates, name references, static indices, capacities, entries '
+            'larger than the table) mixed into the honest encoder stream; the wire bytes the harness builds for H and J are compared with '
+            'Model/QWire.v.  '
             'non-trivial = a history in which a section with a dynamic reference was decoded or reported blocked, or a qp case in which an '
             'instruction was parsed and more than one piece was handed over')
 
@@ -670,6 +905,18 @@ class P(Property):
             t2 = rng.randint(0, 600)
             if eic == 0 or t2 >= 2 * me or (eic - 1) <= t2 % (2 * me) + me:    # only the underflow class (see corpus) is left out
                 out.append('hp.get %d %d %d %d %d' % (eic, rng.randint(0, 1), rng.randint(0, 8), t2, m))
+        # families that drive the model through rarely taken branches (tools/model_coverage.py): limits and init errors,
+        # more than 255 insertions per call, over-long Huffman padding, hand-made sections and instructions
+        out += gen_limits()
+        for k in [255, 256, 257]:
+            for _ in range(2):
+                out.append(gen_burst256(rng, k))
+        for _ in range(max(6, n // 100)):
+            out.append(gen_burst256(rng))
+        for _ in range(n // 5):
+            out.append(gen_huff_padding(rng))
+        for _ in range(n):
+            out.append(gen_hostile(rng))
         return out
 
     def family(self, case):
@@ -698,6 +945,9 @@ class P(Property):
             return out.split()[1] == spec.split()[1]     # where the RFC reconstructs a value, h3 must reconstruct the same
         if fam in ('hp.new', 'hp.get'):
             return True
+        if out.split()[:1] == ['init-err']:
+            cw = case.split()
+            return int(cw[1]) > CAP_MAX or int(cw[2]) >= BLOCKED_LIMIT      # only beyond h3's own limits
         if fam == 'qx':
             return True
         _, cap, blocked, ops, secs = parse_case(case)
@@ -907,6 +1157,8 @@ class P(Property):
             return case if impl_out.startswith('ok') and not impl_out.startswith('ok 0 0') else None
         if re.search(r'B:ok:[^ :]*:1:', impl_out) or 'B:blocked' in impl_out:
             return case
+        if re.search(r'B:w[0-9a-f]+:(ok:[^ :]*:1|err|blocked)', impl_out):
+            return case           # a hand-made section that got past the prefix arithmetic
         return None
 
     def shrink_candidates(self, case):
@@ -924,7 +1176,7 @@ class P(Property):
                 es = w[3].split(',')
                 out += [w[:3] + [','.join(es[:k] + es[k + 1:]) or '-'] + w[4:] for k in range(len(es))]
             return [' '.join(c) for c in out]
-        if w[0] not in ('qs', 'qz', 'qc'):
+        if w[0] not in ('qs', 'qz', 'qc', 'qx'):
             return []
         ops = w[3].split(',')
         out = []
